@@ -48,10 +48,12 @@ def check_c08(rep):
     sc = [(f"c08-{p}-{s}", p, *GC.c08_script(s, p)) for i, s in enumerate(seeds(500 if q else 8000, 8))
           for p in (("at4",) if i % 2 == 0 else ("at5",))]
     run_generated(rep, "heartbeat answer patterns (prompt / late by 10 s, 29.875 s, 30.25 s, 60 s / never) over 3..5 beats", sc)
-    l2c_exhaustive(rep, "heartbeat loop and watchdog after initialisation (at5)",
-                   dict(PROTO='"at5"', MaxEnv=10 if q else 12, MaxFrames=8, Notifies="FALSE"))
+    l2c_exhaustive(rep, "heartbeat loop and watchdog: environment budget spent after the first initialisation (at5)",
+                   dict(PROTO='"at5"', MaxEnv=6 if q else 8, MaxFrames=9, Notifies="FALSE", PostInit="TRUE"))
     if not q:
-        l2c_sensitivity(rep, "F_WATCHDOG", dict(PROTO='"at5"', MaxEnv=10, MaxFrames=8, Notifies="FALSE"), "ContractHolds")
+        l2c_exhaustive(rep, "heartbeat loop and watchdog incl. the handshake phase (at5)",
+                       dict(PROTO='"at5"', MaxEnv=12, MaxFrames=8, Notifies="FALSE"))
+        l2c_sensitivity(rep, "F_WATCHDOG", dict(PROTO='"at5"', MaxEnv=5, MaxFrames=9, Notifies="FALSE", PostInit="TRUE"), "ContractHolds")
     rep.assumptions += API_ASSUME
 
 
@@ -60,8 +62,13 @@ def check_c14(rep):
     sc = [(f"c14-{p}-{s}", p, *GC.c14_script(s, p)) for i, s in enumerate(seeds(500 if q else 8000, 14))
           for p in (("at4",) if i % 2 == 0 else ("at5",))]
     run_generated(rep, "connection loss after initialisation x console state changes x outage length; AT4 group-status gaps", sc)
-    l2c_exhaustive(rep, "link loss / refresh / AT4 poll after initialisation (at4)",
-                   dict(PROTO='"at4"', MaxEnv=10 if q else 12, MaxFrames=8, Notifies="FALSE"))
+    l2c_exhaustive(rep, "link loss / refresh / AT4 poll: environment budget spent after the first initialisation (at4)",
+                   dict(PROTO='"at4"', MaxEnv=6 if q else 7, MaxFrames=9, Notifies="FALSE", PostInit="TRUE"))
+    if not q:
+        l2c_exhaustive(rep, "link loss / refresh after initialisation (at5)",
+                       dict(PROTO='"at5"', MaxEnv=7, MaxFrames=9, Notifies="FALSE", PostInit="TRUE"))
+        l2c_exhaustive(rep, "link loss / refresh / AT4 poll incl. the handshake phase (at4)",
+                       dict(PROTO='"at4"', MaxEnv=12, MaxFrames=8, Notifies="FALSE"))
     rep.assumptions += API_ASSUME
 
 
@@ -121,9 +128,21 @@ def _c11_scripts(q, salt):
     return sc
 
 
+def l2c_commands(rep, q):
+    """ClientImpl with public control calls: WHEN a call is refused, raises not-open, is written at once or is
+    held for a down link (30 s lifetime), under link loss / shutdown / re-init interleavings."""
+    for proto in ("at4", "at5"):
+        l2c_exhaustive(rep, f"control calls x link loss x shutdown x clock, after the first initialisation ({proto})",
+                       dict(PROTO=f'"{proto}"', MaxEnv=4 if q else (6 if proto == "at4" else 5), MaxFrames=9, Notifies="FALSE",
+                            PostInit="TRUE", Cmds="TRUE"), timeout=3000)
+    l2c_replay(rep, 400 if q else 8000, over=dict(Cmds="TRUE", PostInit="TRUE", MaxEnv=8, MaxFrames=12),
+               what="ClientImpl schedules with control calls replayed into the real client")
+
+
 def check_c11(rep):
     q = rep.tier == "quick"
     run_generated(rep, "public control calls over ability bitmaps x enum arguments x 0.05 degC grid x damper -5..105 x timers", _c11_scripts(q, 11))
+    l2c_commands(rep, q)
     rep.assumptions += API_ASSUME
 
 
@@ -218,11 +237,11 @@ def l2c_exhaustive(rep, name, over, timeout=2400):
             rep.violation(clause, f"ClientImpl model ({name}) violates {inv}", {"key": "L2C:" + clause, "clause": clause, "model": "ClientImpl", "constants": over})
 
 
-def l2c_replay(rep, n):
+def l2c_replay(rep, n, over=None, what="ClientImpl schedules replayed into the real client"):
     from . import p_l2c as L2C
     batch = []
     for proto in ("at4", "at5"):
-        scripts, gen, bad = L2C.simulate_scripts(n // 2, lib.seed() % 100000, proto)
+        scripts, gen, bad = L2C.simulate_scripts(n // 2, lib.seed() % 100000, proto, over=over)
         if bad:
             rep.part("note", text="ClientImpl simulation reported a violation in the MODEL", tail=bad[0][-600:])
         for i, l2 in enumerate(scripts):
@@ -230,7 +249,7 @@ def l2c_replay(rep, n):
             batch.append((f"l2c-{proto}-{i}", proto, hs, meta))
     verdicts, metas = PC.run_batch(rep, batch)
     judge(rep, verdicts, metas)
-    rep.part("ClientImpl schedules replayed into the real client", scripts=len(batch))
+    rep.part(what, scripts=len(batch))
     if batch:
         rep.sample({"kind": "ClientImpl schedule", "l2_script": batch[0][3]["l2"]})
 
